@@ -1230,7 +1230,7 @@ int safec_vsnprintf_s(out_fct_type out, const char *funcname, char *buffer,
                     return len;
                 }
                 wstr[len] = '\0';
-                memcpy(buffer, wstr, len + 1);
+                l = (unsigned int)len; /* the field width counts bytes */
 #else
                 char msg[80];
                 snprintf(msg, sizeof msg, "%s: unsupported %%lc arg", funcname);
